@@ -10,6 +10,7 @@ import (
 
 	"git.defalsify.org/vise.git/db"
 
+	"visim/app"
 	"visim/core"
 	"visim/simfs"
 	"visim/world"
@@ -21,7 +22,8 @@ func init() {
 		Level: "exploration",
 		Rule: "two kinds of runs. (a) injectivity sweep (one per backend, first runs of the batch): every (type, session, key) over an adversarial alphabet {a . _ / 1 @ P} up to length 2 (quick) / 3 (thorough) is written with a unique tagged value into one store and read back; any read returning another triple's tag is a collision. " +
 			"(b) seeded histories: 2..5 adversarial triples (separators, type-prefix characters, language-like suffixes, empty session, binary bytes, path elements), writes and reads interleaved over two handles per backend, plus a per-session filesystem listing; " +
-			"non-trivial = at least two distinct accepted triples written and read back; distinct = distinct sets of triples",
+			"(c) every fourth run, through the engine: 2-3 sessions with related ids (prefixes of each other, separators, type-prefix and language-like characters) are served alternately, an engine per request, over ONE shared store handle per backend (with and without the session set on the handle); every session must see exactly the outputs it sees when served alone on a store of its own; " +
+			"non-trivial = at least two distinct accepted triples written and read back (a, b) / at least two sessions served at least twice each (c); distinct = distinct sets of triples / id sets and interleavings",
 		Runs:       map[string]int{"quick": 20000, "thorough": 6000000},
 		MaxSeconds: map[string]int{"quick": 40, "thorough": 900},
 		Run:        runC11,
@@ -29,15 +31,18 @@ func init() {
 			if i < 4 {
 				return []uint64{1, i}
 			}
+			if i%4 == 0 {
+				return []uint64{2}
+			}
 			return []uint64{0}
 		},
 		Assumptions: []string{
 			"triples a backend rejects with an error are skipped on that backend (the property covers ids and keys the backend accepts)",
 			"no language is selected; values are unique and tagged with their triple",
 		},
-		Real:       []string{"db", "db/mem", "db/fs (compiled against the simulated os)", "db/postgres"},
+		Real:       []string{"db", "db/mem", "db/fs (compiled against the simulated os)", "db/postgres", "engine, vm, render, state, cache, persist, resource (sub-batch c)"},
 		Stub:       []string{"store client (seeded adversarial generator)", "OS filesystem (simfs)", "Postgres server (pgfake)"},
-		FaultKinds: []string{"reopen"},
+		FaultKinds: []string{"reopen", "restart", "session_switch_on_shared_handle"},
 	})
 }
 
@@ -129,9 +134,12 @@ func collisionShape(m *medium, reader, owner triple) string {
 func runC11(c *core.Ctx) *core.Outcome {
 	t := c.T
 	o := core.NewOutcome()
-	mode := t.Int(2)
+	mode := t.Int(3)
 	if mode == 1 {
 		return c11Sweep(c, o, t.Int(4))
+	}
+	if mode == 2 {
+		return c11Engine(c, o)
 	}
 	kind := t.Int(4)
 	m := newMedium(kind)
@@ -458,4 +466,155 @@ func c11Sweep(c *core.Ctx, o *core.Outcome, kind int) *core.Outcome {
 	}
 	o.Scenario = map[string]interface{}{"backend": m.name, "mode": "sweep", "alphabet": alpha, "max_len": maxLen, "triples": len(ts), "accepted": accepted, "collisions_by_shape": seenShape}
 	return o
+}
+
+// engine-level session ids: related by prefix, separator and the characters the backends use in their encodings
+var engSessions = []string{"a", "a.b", "b", "ab", "a_b", "a.a", "user1", "user10", "1", "P", "@a", "a_nor", "a.", ".a", "\xff", "a.b.c", "a b", "A", "a ", " a", " ", "a\t", "a\n"}
+
+// c11Engine serves several sessions alternately over one shared store handle and compares each
+// with a twin that is served alone on a store of its own.
+func c11Engine(c *core.Ctx, o *core.Outcome) *core.Outcome {
+	t := c.T
+	cfg := genCfg(t)
+	cfg.Backend = t.Int(4)
+	cfg.SetSession = t.Chance(1, 2)
+	cfg.FinishAlways = t.Chance(1, 2)
+	if t.Chance(1, 2) {
+		cfg.CacheSize = 0
+	} else if cfg.CacheSize == 0 {
+		cfg.CacheSize = uint32(t.Range(8, 60)) // a capacity the loaded values can exceed
+	}
+	sharePe := t.Chance(1, 3)
+	p := fullProfile(t, cfg.FlagCount)
+	p.EndNodes = t.Chance(1, 3)
+	a := app.Generate(t, p)
+	if err := a.Validate(); err != nil {
+		panic("generator produced ill-formed app: " + err.Error())
+	}
+	ns := t.Range(2, 3)
+	var ids []string
+	for len(ids) < ns {
+		id := engSessions[t.Int(len(engSessions))]
+		if len(ids) > 0 && t.Chance(1, 3) {
+			// derived from an earlier id
+			b := ids[t.Int(len(ids))]
+			id = []string{b + "." + b, b + "0", b + ".", b + "_" + b, strings.ToUpper(b), b + " ", " " + b, strings.TrimSpace(b) + "\n"}[t.Int(8)]
+		}
+		dup := false
+		for _, x := range ids {
+			if x == id {
+				dup = true
+			}
+		}
+		if dup {
+			id = fmt.Sprintf("%s%d", id, len(ids)) // an exhausted tape draws the same id again and again
+		}
+		ids = append(ids, id)
+	}
+	if sharePe {
+		cfg.FinishAlways = true // a gateway that reuses its persister has to save/flush it after every request, failed or not
+	}
+	scfg := cfg
+	scfg.SharePersister = sharePe // only the shared world: the twins are served alone, each by its own persister
+	shared := world.New(a, scfg)
+	shared.UseBackend()
+	shared.ShareHandle()
+	if sharePe {
+		o.Probes["engine_level_run_with_shared_flushing_persister"]++
+	}
+	defer shared.Close()
+	var S, T []*world.Sess
+	var solos []*world.World
+	for _, id := range ids {
+		S = append(S, shared.NewSession(id, true))
+		w := world.New(a, cfg)
+		w.UseBackend()
+		solos = append(solos, w)
+		T = append(T, w.NewSession(id, true))
+	}
+	defer func() {
+		for _, w := range solos {
+			w.Close()
+		}
+	}()
+	all := append([]*world.World{shared}, solos...)
+	served := make([]int, ns)
+	dead := make([]bool, ns)
+	nreq := t.Range(4, 16)
+	lastK := -1
+	var order []byte
+	for i := 0; i < nreq; i++ {
+		t.Begin("request")
+		k := t.Int(ns)
+		var in []byte
+		if served[k] > 0 {
+			cur := ""
+			if pp, _ := T[k].Position(); len(pp) > 0 {
+				cur = pp[len(pp)-1]
+			}
+			in = genInput(t, a, cur, 1)
+		}
+		t.End()
+		if dead[k] {
+			continue
+		}
+		if lastK >= 0 && lastK != k {
+			o.Faults["session_switch_on_shared_handle"]++
+		}
+		lastK = k
+		order = append(order, byte('0'+k))
+		ss := S[k].Request(in, true)
+		st := T[k].Request(in, true)
+		served[k]++
+		o.Counts["requests"]++
+		if served[k] > 1 {
+			o.Faults["restart"]++
+		}
+		if strings.HasPrefix(st.ExecErr, "build:") || strings.HasPrefix(ss.ExecErr, "build:") {
+			if (st.ExecErr == "") != (ss.ExecErr == "") {
+				return finish(o, all...).Fail("cross-session-interference", i, map[string]string{"backend": world.BackendNames[cfg.Backend], "at": "build"},
+					"session %q (ids %q, shared handle, set_session=%v): building the engine gave %q on the shared handle and %q alone", ids[k], ids, cfg.SetSession, ss.ExecErr, st.ExecErr)
+			}
+			o.Probes["id_refused_by_backend"]++
+			dead[k] = true
+			continue
+		}
+		if st.Panic != "" || ss.Panic != "" {
+			o.Probes["foreign_panic"]++
+			break
+		}
+		if ss.Out != st.Out || ss.Cont != st.Cont || (ss.ExecErr == "") != (st.ExecErr == "") || (ss.FlushErr == "") != (st.FlushErr == "") || (ss.FinishErr == "") != (st.FinishErr == "") {
+			if c.WantScenario || true {
+				o.Scenario = map[string]interface{}{"shared": scenario(shared, nil), "alone": scenario(solos[k], nil), "ids": ids, "order": string(order)}
+			}
+			class, attrs := "cross-session-interference", map[string]string{"backend": world.BackendNames[cfg.Backend], "at": "request", "shared_persister": fmt.Sprint(sharePe)}
+			if cfg.Backend == world.BackFs && !cfg.SetSession {
+				// the listed finding seen through the engine: the state record of session X is the file "@X",
+				// which is also the legacy fallback name for the state record of session "@X"
+				for _, x := range ids {
+					for _, y := range ids {
+						if y == "@"+x {
+							class, attrs = "cross-data", map[string]string{"shape": "fs-legacy-fallback-name", "level": "engine"}
+						}
+					}
+				}
+			}
+			return finish(o, all...).Fail(class, i, attrs,
+				"request %d (session %q, its request #%d, input %s; sessions %q served in order %s over one %s handle, set_session=%v, shared flushing persister=%v): output %s cont=%v exec=%q flush=%q finish=%q; the same session served alone on its own store: output %s cont=%v exec=%q flush=%q finish=%q",
+				i, ids[k], served[k]-1, short(string(in)), ids, string(order), world.BackendNames[cfg.Backend], cfg.SetSession, sharePe, short(ss.Out), ss.Cont, ss.ExecErr, ss.FlushErr, ss.FinishErr, short(st.Out), st.Cont, st.ExecErr, st.FlushErr, st.FinishErr)
+		}
+	}
+	two := 0
+	for _, n := range served {
+		if n >= 2 {
+			two++
+		}
+	}
+	o.Nontrivial = two >= 2
+	o.States = append(o.States, h64(strings.Join(ids, "|"), string(order), cfg.Backend, cfg.SetSession))
+	o.Probes["engine_level_run"]++
+	if c.WantScenario {
+		o.Scenario = map[string]interface{}{"shared": scenario(shared, nil), "ids": ids, "order": string(order)}
+	}
+	return finish(o, all...)
 }
